@@ -51,6 +51,10 @@ THEOREMS = [
     # float hop sizes: loop = filter over the float candidates, what the candidates are, never raises
     'split_hop_times_of_mono', 'split_hop_times_float', 'split_hop_times_rne53', 'hop_times_float',
     'hop_candidates_float', 'split_hop_ok_float',
+    # the silence test `start > R (last + gap)` is the exact statement except at the double the sum rounds up to; the
+    # reordered `R (start - last) > gap` is a different decision in float64; the exceptional case occurs
+    'silence_decision_float', 'silence_decision_float_of_ne', 'silence_reordered_differs_rne53',
+    'silence_rounded_sum_case_rne53',
     # what is false in float64 (kernel-evaluated instance of the rne53 model)
     'in_effect_exact_instant_fails_rne53',
 )] + [(FLT_PROOFS, 'NSV.C02.' + n) for n in (
@@ -456,17 +460,32 @@ def request_line(ns, c):
     raise ValueError(op)
 
 
+class ArgumentModified(Exception):
+    """the implementation changed a Python list it was given (split times / hop list / preserve list)"""
+
+
 def call_impl(sl, ns, c):
-    """the real function for one case (raises what the real code raises)."""
+    """the real function for one case (raises what the real code raises).  Python lists handed over are compared
+    with what they held before, also when the call raises."""
     op = c['op']
     if op == 'ext':
-        return sl._extract_subsequences(ns, list(c['splits']), c['preserve'])
+        st, pr = list(c['splits']), None if c['preserve'] is None else list(c['preserve'])
+        try:
+            return sl._extract_subsequences(ns, st, pr)
+        finally:
+            if list(map(repr, st)) != list(map(repr, c['splits'])) or (pr is not None and pr != list(c['preserve'])):
+                raise ArgumentModified('split times / preserve list')
+    if op == 'hoplist':
+        hs = list(c['hops'])
+        try:
+            return sl.split_note_sequence(ns, hs, c['skip'])
+        finally:
+            if list(map(repr, hs)) != list(map(repr, c['hops'])):
+                raise ArgumentModified('hop list')
     if op == 'sub':
         return sl.extract_subsequence(ns, c['a'], c['b'])
     if op == 'trim':
         return sl.trim_note_sequence(ns, c['a'], c['b'])
-    if op == 'hoplist':
-        return sl.split_note_sequence(ns, list(c['hops']), c['skip'])
     if op == 'hop':
         return sl.split_note_sequence(ns, c['hop'], c['skip'])
     if op == 'tc':
@@ -640,13 +659,20 @@ def expected_split_vector(ns, c):
                 exp.append(t)
             cur[kind] = v
     elif op == 'sil':
+        # "the onsets after more than gap_seconds of silence", in exact arithmetic on the doubles.  `last` is 0 or a note
+        # end, so last + gap is one real sum of two doubles; whoever holds it in a double rounds it once.  The only onset
+        # that rounding can hide is the double immediately above an unrepresentable sum (silence_decision_float: a test
+        # `start > fl(last + gap)` is the exact statement except when start is the double the sum rounds up to); there,
+        # and only there, the split vector is left undecided.
         exp, last, gap = [F(0)], F(0), F(c['gap'])
         for n in sorted(ns.notes, key=lambda n: n.start_time):
-            d = F(n.start_time) - (last + gap)
-            if 0 < abs(d) < EPS * max(1, abs(last + gap)):
-                return None, True   # last_active + gap is a float sum: undecided within rounding
-            if d > 0:
-                exp.append(F(n.start_time))
+            S, st = last + gap, F(n.start_time)
+            if not is_double(S):
+                f = float(S)   # int / int true division: correctly rounded
+                if st == F(f if F(f) > S else math.nextafter(f, math.inf)):
+                    return None, True
+            if st > S:
+                exp.append(st)
             last = max(last, F(n.end_time))
     else:
         raise ValueError(op)
@@ -735,7 +761,46 @@ def oracle_case(sl, ns, c):
     except Exception as e:  # pylint: disable=broad-except
         out, err = None, e
     if ns.SerializeToString(deterministic=True) != before:
-        return 'input modified'
+        return 'input modified' + (' (by a call that raised %s)' % type(err).__name__ if err is not None else '')
+    if isinstance(err, ArgumentModified):
+        return 'a Python list argument was modified in place: %s' % err
+    # a short history: results are new objects (not the argument, no piece twice); spoiling them in place touches
+    # neither the input nor the answer of a second call with the same arguments
+    def ser(o):
+        return None if o is None else [p.SerializeToString(deterministic=True) for p in o] if isinstance(o, list) else o.SerializeToString(deterministic=True)
+    pieces = out if isinstance(out, list) else [] if out is None else [out]
+    if any(p is ns for p in pieces) or len({id(p) for p in pieces}) != len(pieces):
+        return 'a result is the argument object itself / the same object twice, not a copy'
+    first = ser(out)
+    keep = []
+    for p in pieces:
+        q = type(p)()
+        q.CopyFrom(p)
+        keep.append(q)
+        del p.notes[:]
+        del p.tempos[:]
+        del p.control_changes[:]
+        p.total_time = -1.0
+        p.ClearField('subsequence_info')
+    if ns.SerializeToString(deterministic=True) != before:
+        return 'modifying a result in place changed the input (shared sub-messages)'
+    try:
+        out2, err2 = guarded(call_impl, sl, ns, c, limit=case_limit(c)), None
+    except Exception as e:  # pylint: disable=broad-except
+        out2, err2 = None, e
+    if ns.SerializeToString(deterministic=True) != before:
+        return 'input modified by the second call'
+    if type(err2) is not type(err) or ser(out2) != first:
+        if not isinstance(err, ImplStuck) and not isinstance(err2, ImplStuck):
+            return 'second call with the same arguments gives a different answer (%s, then %s)' % (
+                type(err).__name__ if err is not None else 'a result', type(err2).__name__ if err2 is not None else 'another result')
+    pieces2 = out2 if isinstance(out2, list) else [] if out2 is None else [out2]
+    if any(p is q for p in pieces2 for q in pieces + [ns]):
+        return 'second call returned an object it returned or received before'
+    if err2 is None and err is None:
+        out = out2
+    elif out is not None:
+        out = keep if isinstance(out, list) else keep[0]
     op = c['op']
     quant = ns.quantization_info.steps_per_quarter > 0 or ns.quantization_info.steps_per_second > 0
     T = F(ns.total_time)
@@ -921,6 +986,31 @@ def directed_cases():
     out.append((ns, {'op': 'tc', 'skip': True}))
     out.append((ns, {'op': 'sil', 'gap': 0.0}))
     out.append((ns, {'op': 'sil', 'gap': 0.5}))
+    # first and last legal value of every parameter / field: the empty sequence through every operation; pitch 0 / 127,
+    # velocity 1 / 127, zero-length notes sitting exactly on the cuts, cuts at 0 and at total_time, a hop equal to
+    # total_time / half of it, gap 0 with touching notes, gap exactly the silence and one ulp either side of it
+    e = music_pb2.NoteSequence()
+    x = music_pb2.NoteSequence()
+    for (p, v, s, t) in [(0, 1, 0.0, 0.0), (127, 127, 0.0, 1.0), (0, 127, 1.0, 1.0), (127, 1, 1.0, 2.0), (60, 64, 2.0, 2.0),
+                         (61, 64, 3.5, 4.0)]:
+        x.notes.add(pitch=p, velocity=v, start_time=s, end_time=t)
+    x.total_time = 4.0
+    for q in (e, x):
+        out.append((q, {'op': 'ext', 'splits': [0.0, 4.0], 'preserve': None}))
+        out.append((q, {'op': 'ext', 'splits': [0.0, 0.0, 1.0, 2.0, 4.0, 4.0], 'preserve': []}))
+        out.append((q, {'op': 'sub', 'a': 0.0, 'b': 4.0}))
+        out.append((q, {'op': 'sub', 'a': 2.0, 'b': 2.0}))
+        out.append((q, {'op': 'trim', 'a': 0.0, 'b': 4.0}))
+        out.append((q, {'op': 'trim', 'a': 1.0, 'b': 1.0}))
+        for skip in (False, True):
+            out.append((q, {'op': 'hop', 'hop': 4.0, 'skip': skip}))
+            out.append((q, {'op': 'hop', 'hop': 2.0, 'skip': skip}))
+            out.append((q, {'op': 'hop', 'hop': math.nextafter(4.0, 0.0), 'skip': skip}))
+            out.append((q, {'op': 'hoplist', 'hops': [], 'skip': skip}))
+            out.append((q, {'op': 'hoplist', 'hops': [1.0, 1.0, 2.0], 'skip': skip}))
+            out.append((q, {'op': 'tc', 'skip': skip}))
+        for gap in (0.0, 5e-324, 1.5, math.nextafter(1.5, 0.0), math.nextafter(1.5, 2.0), 4.0):
+            out.append((q, {'op': 'sil', 'gap': gap}))
     return out
 
 
@@ -938,7 +1028,7 @@ def run(chk):
                 'a long stream: non-dyadic float hops (0.1, 0.2, 0.3, 0.7, 1/3, ...) with 8-200 hops, total_time exactly on / 1-2 ulps '
                 'around a hop multiple, note chains meeting exactly on hop multiples (each multiple as k*h, h+(k-1)*h, the running sum '
                 'or the decimal literal), mostly skip_splits_inside_notes; 30-120-note sequences with 10-40 cuts; nearly equal tempos '
-                '(1-3 ulps / 1e-12..1e-6 relative) for the genuine-change test; onsets exactly on / one ulp around last_active+gap; '
+                '(1-3 ulps / 1e-12..1e-6 relative) for the genuine-change test; onsets exactly on / one ulp around last_active+gap; always-run extremes: empty sequence and pitch/velocity range ends through every operation, zero-length notes on the cuts, hop = total_time, gap 0 / exactly the silence / one ulp beside it; '
                 'non-trivial = distinct request whose result is a value or a documented error')
     rng = chk.subrng('corr')
     cases = [(ns, c, {'directed'}) for ns, c in directed_cases()]
